@@ -8,9 +8,9 @@ cp "$SD/patch.diff" "$OUT/patch.diff"; cp "$SD/demo.rs" "$OUT/demo.rs" 2>/dev/nu
 cd "$WT" || exit 2
 suite=$(cargo test --workspace --no-fail-fast --offline --lib 2>&1 | grep -E "^test result" | head -1)
 demo_with=$(timeout 600 cargo test --offline --features "block_on executor signals stream futures-io" --test seed_demo 2>&1 | grep -E "^test result" | head -1)
-git stash push -q -- src
+git diff -- src > /tmp/seed-eval-$NAME.diff; git checkout -q -- src
 demo_without=$(timeout 600 cargo test --offline --features "block_on executor signals stream futures-io" --test seed_demo 2>&1 | grep -E "^test result" | head -1)
-git stash pop -q
+git apply /tmp/seed-eval-$NAME.diff; rm -f /tmp/seed-eval-$NAME.diff
 echo "suite with change:   $suite"
 echo "demo with change:    $demo_with"
 echo "demo without change: $demo_without"
